@@ -38,6 +38,15 @@ fi
 
 (cd "$VERIF_DIR/engine/h" && go build -tags verif -overlay "$WORK/ov/overlay.json" -modfile "$WORK/go.mod" -o "$WORK/verifh" .) > "$WORK/build.log" 2>&1 || { cat "$WORK/build.log" >&2; echo "harness build failed (no verdict)" >&2; exit 3; }
 
+# C15: a second, -race build of the same harness for the free-running pass
+if [ "${1:-}" = "C15" ] || { [ "${1:-}" = "replay" ] && grep -q '"property": "C15"' "${2:-/dev/null}" 2>/dev/null; }; then
+  if (cd "$VERIF_DIR/engine/h" && go build -race -tags verif -overlay "$WORK/ov/overlay.json" -modfile "$WORK/go.mod" -o "$WORK/verifh-race" .) > "$WORK/build-race.log" 2>&1; then
+    export VERIF_RACE_BIN="$WORK/verifh-race"
+  else
+    echo "note: the -race build failed; the free-running pass is skipped" >&2; tail -5 "$WORK/build-race.log" >&2
+  fi
+fi
+
 export VERIF_INSTR_JSON="$WORK/ov/instr.json"
 if [ -d /dev/shm ] && [ -w /dev/shm ]; then
   SHM="$(mktemp -d /dev/shm/verif-XXXXXX)"; export VERIF_SHM="$SHM"
